@@ -146,7 +146,11 @@ class QueueWorld:
                 await asyncio.sleep(0)
             item = (i, j)
             if p.get("falsy"):
-                item = [None, 0, "", (), False][(i + j) % 5]  # sentinels and other falsy items are items too
+                # sentinels and other falsy items are items too; each is put twice in a row (the very same object, e.g. a wake-up marker)
+                item = [None, 0, "", (), False][(i + j // 2) % 5]
+            if self.puts and item is getattr(self, "last_item", self):
+                self.sit["put.same_object_as_previous"] += 1
+            self.last_item = item
             if p.get("nowait"):
                 try:
                     self.q.put_nowait(item)
@@ -358,6 +362,7 @@ BASES = [
     {"maxsize": 0, "producers": [{"items": 3, "gap": 2}], "consumers": [{"rounds": 3, "bodies": [{"y": 1, "selfcancel": True}, {"y": 1}]}], "steps": [["y", 4], ["join"], ["put", 1]]},
     {"maxsize": 0, "producers": [{"items": 5, "gap": 1, "falsy": True}], "consumers": [{"rounds": 3, "bodies": [{"y": 1}]}, {"rounds": 2, "bodies": [{"y": 0}]}], "steps": [["y", 3], ["join"]]},
     {"maxsize": 2, "producers": [{"items": 5, "gap": 0, "nowait": True}], "consumers": [{"rounds": 2, "bodies": [{"y": 2}]}, {"rounds": 1, "bodies": [{"y": 1}]}], "steps": [["y", 2], ["join"], ["y", 6], ["join"]]},
+    {"maxsize": 0, "producers": [{"items": 4, "gap": 0, "falsy": True, "nowait": True}], "consumers": [{"rounds": 4, "bodies": [{"y": 1}]}], "steps": [["y", 2], ["join"], ["put", 1]]},
     {"maxsize": 0, "producers": [{"items": 4, "gap": 2}], "consumers": [{"rounds": 1, "bodies": [{"y": 1, "nested": True}]}, {"rounds": 2, "bodies": [{"y": 1}]}], "steps": [["join"], ["y", 5], ["join"]]},
 ]
 
